@@ -1936,6 +1936,21 @@ fn ctx_corrupt_sweep(_seed: u64) -> serde_json::Value {
     json!({"found": false, "routine": "ctx_corrupt_sweep", "tried": tried})
 }
 
+// C09: SegmentCumSum on an input with u64::MAX rows (a valid type: the element count fits u64) - the typing rule adds one row
+fn segcs_overflow() -> serde_json::Value {
+    let r = catch_unwind(AssertUnwindSafe(|| -> Result<String> {
+        let c = create_context()?; let g = c.create_graph()?;
+        let a = g.input(array_type(vec![u64::MAX], BIT))?; let b = g.input(array_type(vec![u64::MAX], BIT))?; let f = g.input(scalar_type(BIT))?;
+        match a.segment_cumsum(b, f) { Ok(n) => Ok(format!("accepted with type {}", n.get_type()?)), Err(_) => Ok("Err".to_owned()) }
+    }));
+    match r {
+        Ok(Ok(s)) if s == "Err" => json!({"found": false, "routine": "segcs_overflow", "tried": 1}),
+        Ok(Ok(s)) => json!({"found": true, "routine": "segcs_overflow", "property": "C09", "input": {"graph": "segment_cumsum(input bit[u64::MAX], binary bit[u64::MAX], first_row bit)"}, "expected": "Err(..) when the node is added (the result would have 2^64 rows)", "observed": s}),
+        Ok(Err(e)) => json!({"found": false, "routine": "segcs_overflow", "error": e.to_string()}),
+        Err(_) => json!({"found": true, "routine": "segcs_overflow", "property": "C09", "input": {"graph": "segment_cumsum(input bit[u64::MAX], binary bit[u64::MAX], first_row bit)"}, "expected": "Err(..) when the node is added (the result would have 2^64 rows)", "observed": "panic (attempt to add with overflow in the SegmentCumSum typing rule; a release build wraps to 0 rows instead)"}),
+    }
+}
+
 fn main() {
     let args: Vec<String> = std::env::args().collect();
     let seed: u64 = args.get(2).and_then(|s| s.parse().ok()).unwrap_or(0);
@@ -1956,6 +1971,7 @@ fn main() {
         Some("share_roundtrip") => share_roundtrip(seed),
         Some("prng_stream") => prng_stream(seed),
         Some("layout_ref") => layout_ref(seed),
+        Some("segcs_overflow") => segcs_overflow(),
         Some("ctx_corrupt_sweep") => ctx_corrupt_sweep(seed),
         Some("name_collision") => name_collision(seed),
         Some("matmul_ref") => matmul_ref(seed),
